@@ -15,9 +15,10 @@
 //!   stmt ::= (var oexpr) | (assign (steps step*) expr) | (mcall expr*) | (loop P) | (goto)
 //!          | (label) | (if expr expr P stmt) | (if expr expr P stmt (else stmt P))
 //!          | (block P stmt*) | (poison)
-//!   expr ::= (bin expr expr) | (un expr) | (bool) | (sint V T P) | (bits V T P) | (str)
+//!   expr ::= (bin expr expr) | (neg expr) | (un expr) | (bool) | (sint V T P) | (bits V T P) | (str)
 //!          | (arr expr*) | (structural expr*) | (paren expr) | (deref step*) | (coerce expr)
 //!          | (bitcast expr) | (cast expr) | (lenof step*) | (sizeof) | (call expr*) | (poison)
+//!          (neg e) is Unary with UnaryOp::Negative, (un e) Unary with any other operator
 //!   step ::= (elem expr) | (mem) | (deslice) | (autoderef) | (autoview)
 use penne::alpha::common::*;
 use std::fmt::Write;
@@ -97,9 +98,14 @@ fn expr(e: &Expression, o: &mut String)
 		{
 			exprs("bin", [left.as_ref(), right.as_ref()].into_iter(), o)
 		}
-		Expression::Unary { expression, .. } =>
+		Expression::Unary { op, expression, .. } =>
 		{
-			exprs("un", std::iter::once(expression.as_ref()), o)
+			let tag = match op
+			{
+				UnaryOp::Negative => "neg",
+				UnaryOp::BitwiseComplement => "un",
+			};
+			exprs(tag, std::iter::once(expression.as_ref()), o)
 		}
 		Expression::BooleanLiteral { .. } => o.push_str("(bool)"),
 		Expression::SignedIntegerLiteral {
